@@ -1457,6 +1457,8 @@ def report(ctx, checks, failed):
             gd = [x for x in signature_features(c['rep']).split('+') if x.startswith('decompose-disagrees-with-unitary:')]
             if gd:
                 sig = 'gate-defect:' + gd[0]
+            elif 'tagged-measurement-loses-key-path' in signature_features(c['rep']).split('+'):
+                sig = 'gate-defect:tagged-measurement-loses-key-path'
             what = (f'{cfg.id}: the output does not mean the same as the input ({c["stream"].split(":")[-1]} compared through the reference semantics, '
                     f'contract={cfg.contract}); {c["desc"]}\noutput:\n{c["rep"]["output_diagram"][:600]}')
             ctx.disagree(f'validation:{c["stream"]}', what, sig, what, dict(kind='semantics', **c['rep']))
@@ -1574,6 +1576,15 @@ def stabilizer_effect_without_tableau_action(cirq, circuit):
     return False
 
 
+def keys_lose_path(cirq, circuit, flat_ops):
+    """The keys the circuit's sub-circuit operations declare (repetition ids / key paths applied) are not the keys its unrolled
+    operations record although a tagged measurement is inside: cirq.TaggedOperation does not forward the key-path protocols to the
+    measurement it wraps (defect of that class, not of a transformer)."""
+    declared = {str(k) for op in circuit.all_operations() for k in cirq.measurement_key_objs(op)}
+    recorded = {str(k) for op in flat_ops for k in cirq.measurement_key_objs(op)}
+    return declared != recorded and any(op.tags and cirq.is_measurement(op) for op in flat_ops)
+
+
 def root_cause(cirq, cfg, circuit, out, deep):
     """Features of a failing case, computed on the real input/output, that name a recorded defect class (part of the signature)."""
     f = []
@@ -1612,6 +1623,8 @@ def root_cause(cirq, cfg, circuit, out, deep):
         touches = lambda k: (lambda o: k in cirq.measurement_key_objs(o) or k in cirq.control_keys(o))
         if any(proj(ref, touches(k)) != proj(ops_out, touches(k)) for k in keys) and 'per-key-measurement-order-changed' not in f:
             f.append('per-key-order-changed')
+    if keys_lose_path(cirq, circuit, ops_in) or keys_lose_path(cirq, out, ops_out):
+        f.append('tagged-measurement-loses-key-path')
     if cfg.name in ('expand_composite', 'optimize_for_target_gateset', 'map_operations', 'map_operations_and_unroll', 'merge_k_qubit_unitaries'):
         g = decompose_defect(cirq, ops_in)
         if g:
